@@ -335,7 +335,9 @@ func ruleT7b(c *Ctx) {
 					if !ok || len(as.Lhs) != 1 {
 						return true
 					}
-					_, compound := assignTok[as.Tok]
+					// any operator-assignment counts (+= … but also >>=, &=, …: a shift standing in
+					// for a division is a second, different update)
+					compound := as.Tok != token.ASSIGN && as.Tok != token.DEFINE
 					isArith := compound
 					if as.Tok == token.ASSIGN {
 						if _, ok := ast.Unparen(as.Rhs[0]).(*ast.BinaryExpr); ok {
